@@ -170,6 +170,10 @@ pub enum Surgery {
     /// Variable font without `avar` (three of the five in the corpus): install one with 3-9
     /// monotonic segment map entries per axis (always -1 -> -1, 0 -> 0, 1 -> 1).
     InstallAvar { variant: u64 },
+    /// Replace `post` by a version 2.5 table (deprecated; one signed offset per glyph into the
+    /// standard Macintosh order; only possible up to 385 glyphs) or by a bare version 3.0 header.
+    /// Every corpus font has version 2.0 or 3.0.
+    PostFormat { v25: bool, variant: u64 },
     /// Re-pack `hmtx` with only `num_h_metrics` long metrics (glyphs after that take the last
     /// advance and keep their side bearing) and update `hhea`. Every corpus CFF2 font and most
     /// others have numberOfHMetrics == numGlyphs, which hides the compact form from the writers.
